@@ -19,6 +19,8 @@ pub enum KindId {
     IterInexact,
     IterUnk,
     IterNonFused,
+    /// not fused, with a truthful exact size hint (a Drain-like source)
+    IterNonFusedExact,
     IterRef,
     IterRefUnk,
     ClonedSlice,
@@ -42,7 +44,7 @@ pub enum KindId {
 
 pub const GRID: [usize; 9] = [0, 1, 7, usize::MAX / 2 - 1, usize::MAX / 2, usize::MAX / 2 + 1, usize::MAX - 2, usize::MAX - 1, usize::MAX];
 
-pub const ALL_KINDS: [KindId; 30] = [
+pub const ALL_KINDS: [KindId; 31] = [
     KindId::Slice,
     KindId::VecRef,
     KindId::ArrayRef,
@@ -55,6 +57,7 @@ pub const ALL_KINDS: [KindId; 30] = [
     KindId::IterInexact,
     KindId::IterUnk,
     KindId::IterNonFused,
+    KindId::IterNonFusedExact,
     KindId::IterRef,
     KindId::IterRefUnk,
     KindId::ClonedSlice,
@@ -91,6 +94,7 @@ impl KindId {
             IterInexact => "iter_inexact",
             IterUnk => "iter_unk",
             IterNonFused => "iter_nonfused",
+            IterNonFusedExact => "iter_nonfused_exact",
             IterRef => "iter_ref",
             IterRefUnk => "iter_ref_unk",
             ClonedSlice => "cloned_slice",
@@ -113,13 +117,13 @@ impl KindId {
         KindInfo {
             name,
             known: !matches!(self, IterInexact | IterUnk | IterNonFused | CopiedIter | IterRefUnk),
-            consuming: matches!(self, OVec | OArray | IterExact | IterInexact | IterUnk | IterNonFused | OVec24 | OArray24 | Iter24 | OVecBox | OArrayBox | IterBox | OVecZst | OArrayZst),
+            consuming: matches!(self, OVec | OArray | IterExact | IterInexact | IterUnk | IterNonFused | IterNonFusedExact | OVec24 | OArray24 | Iter24 | OVecBox | OArrayBox | IterBox | OVecZst | OArrayZst),
             by_ref: matches!(self, Slice | VecRef | ArrayRef | IterRef | IterRefUnk),
             clones: matches!(self, ClonedSlice | ClonedVecRef | ClonedArrayRef | ClonedIter),
             adaptor: matches!(self, ClonedSlice | CopiedSlice | ClonedVecRef | ClonedArrayRef | ClonedIter | CopiedIter),
-            nonfused: matches!(self, IterNonFused),
+            nonfused: matches!(self, IterNonFused | IterNonFusedExact),
             zst: matches!(self, OVecZst | OArrayZst | SliceZst),
-            wrapper: matches!(self, IterExact | IterInexact | IterUnk | IterNonFused | IterRef | IterRefUnk | ClonedIter | CopiedIter | Iter24 | IterBox),
+            wrapper: matches!(self, IterExact | IterInexact | IterUnk | IterNonFused | IterNonFusedExact | IterRef | IterRefUnk | ClonedIter | CopiedIter | Iter24 | IterBox),
             keymap: match self {
                 Range0 => KeyMap::Range(0),
                 Range5 | RangeInto => KeyMap::Range(5),
@@ -496,14 +500,14 @@ pub fn exec_one(kind: KindId, mode: Mode, env: &mut Env, hist: &[SOp], term: Ter
         Range0 => run_ref(env, (0..len).con_iter(), hist, term),
         Range5 => run_ref(env, (5..5 + len).con_iter(), hist, term),
         RangeInto => run_ref(env, IntoConcurrentIter::into_con_iter(5..5 + len), hist, term),
-        IterExact | IterInexact | IterUnk | IterNonFused => {
+        IterExact | IterInexact | IterUnk | IterNonFused | IterNonFusedExact => {
             let src: std::vec::Vec<Elem<0>> = mk(len);
             let hint = match kind {
-                IterExact => Hint::Exact,
+                IterExact | IterNonFusedExact => Hint::Exact,
                 IterInexact => Hint::Inexact,
                 _ => Hint::Unbounded,
             };
-            let p = Probe::new(src, hint, kind == IterNonFused);
+            let p = Probe::new(src, hint, matches!(kind, IterNonFused | IterNonFusedExact));
             let it = subj(|| IterIntoConcurrentIter::into_con_iter(p));
             run_history(env, it, hist, term);
             end_checks(env, false);
